@@ -101,8 +101,9 @@ def profile(prop, g):
                   malformed=g.choice([0, 0, 0.15]), p_docimpl=g.choice([0, 0, 0.4]), p_stale=g.choice([0, 0, 0, 0.25]))
         cfg['regex']['member'] = g.choice(['', '^_[a-z]*_', 'x', '^.'])
     elif prop == 'C10':
-        kw.update(weights={'set': 6, 'option': 5, 'func': 0.7, 'class': 0.3, 'cttest': 0.2, 'add_test': 0.3}, p_doc=0.7,
-                  malformed=g.choice([0, 0, 0.15]), p_dup=g.choice([0, 0.35, 0.6]))
+        # set()/option() also between a member/test declaration and its implementing definition (p_gap), and inside classes
+        kw.update(weights={'set': 6, 'option': 5, 'func': 0.7, 'class': 0.6, 'member': 0.6, 'cttest': 0.9, 'add_test': 0.3}, p_doc=0.7,
+                  malformed=g.choice([0, 0, 0.15]), p_dup=g.choice([0, 0.35, 0.6]), p_gap=g.choice([0.12, 0.5]))
     elif prop == 'C11':
         kw.update(weights={'cttest': 5, 'section': 5, 'add_test': 5, 'func': 0.5, 'class': 0.3, 'set': 0.3}, p_doc=0.6, max_depth=4,
                   malformed=g.choice([0, 0, 0.15]), p_docimpl=g.choice([0, 0, 0.4]), p_stale=g.choice([0, 0, 0, 0.25]))
